@@ -37,6 +37,8 @@ type thread struct {
 	args    []Value
 	native  func()
 	daemon  bool // parked on a channel that may never become ready (ticker loops)
+	wants   *Value // the mutex the thread is about to lock (parked at the scheduling point before Lock / RLock)
+	wantsW  bool
 }
 
 type msgKind int
@@ -354,8 +356,12 @@ func (e *Engine) mutexLock(p *Value, write bool) {
 	if !write {
 		site = "RLock " + e.cellDesc(p)
 	}
+	if e.th != nil && e.th.cur != nil {
+		e.th.cur.wants, e.th.cur.wantsW = p, write
+	}
 	e.yield(site)
 	t := e.th.cur
+	t.wants = nil
 	can := func() bool {
 		if write {
 			return m.writer == nil && len(m.readers) == 0
@@ -396,12 +402,11 @@ func (e *Engine) mutexTryLock(p *Value, write bool) bool {
 	// exploration, so "the try falls into that critical section" is a separate
 	// decision (the other thread then runs its critical section afterwards; a
 	// race-free program cannot tell the difference).
-	desc := e.cellDesc(p)
 	for _, o := range e.th.all {
 		if o == t || o.done || o.blocked != nil {
 			continue
 		}
-		if o.site == "Lock "+desc || (write && o.site == "RLock "+desc) {
+		if o.wants == p && (o.wantsW || write) {
 			k := e.choose(2, func(int) *Term { return e.st.True }, false)
 			e.recordChoice("select", k)
 			if k == 1 {
